@@ -159,7 +159,7 @@ def run_check(pid, tier, seed, workers=None, only=None, extra_env=None, quiet=Fa
                 reasons.append(f"anchored function {a} never entered")
     wall_s = time.time() - t0
     replay_paths = []
-    if real:
+    if real and only is None:
         os.makedirs(os.path.join(VERIF, "replays"), exist_ok=True)
         seen_mech = {}
         for v in real:
@@ -209,7 +209,9 @@ def run_check(pid, tier, seed, workers=None, only=None, extra_env=None, quiet=Fa
             print(f"VIOLATION property={pid} replay={path}")
             print(f"   mechanism={v['mech']}: {v['msg'][:600]}")
         if real and not replay_paths:
-            print(f"VIOLATION property={pid} replay=none")
+            for v in real[:5]:
+                print(f"VIOLATION property={pid} replay={'(replayed case)' if only is not None else 'none'}")
+                print(f"   mechanism={v['mech']}: {v['msg'][:600]}")
         if real:
             print(f"[{pid}] {len(real)} violating events in total")
         for r in reasons:
